@@ -86,8 +86,13 @@ class Contract:
         self.post_lets.append((name, Clause(name, text, "let")))
         return self
 
-    def requires(self, label, text):
-        self.requires_.append(Clause(label, text, "requires"))
+    def requires(self, label, text, input_assumption=False):
+        """Precondition. input_assumption=True: an assumption about the (whole, possibly nested) INPUT stated over ghosts of the
+        verification harness; it is assumed when the function is verified, listed as an assumption, and neither checked nor
+        assumed at call sites (where the ghosts do not exist)."""
+        cl = Clause(label, text, "requires")
+        cl.input_assumption = input_assumption
+        self.requires_.append(cl)
         return self
 
     def returns(self, label, text, via=None, **extra):
